@@ -250,7 +250,7 @@ theorem T_bystander {sh sh' : Shared K V} {u : Tid} {pc : Pc K V} {a a' : APc K 
       first | exact ⟨hs.pend hT.1, hno'⟩ | exact ⟨hs.isIdle hT.1, hno'⟩
   | ret r =>
     cases r <;> simp only [T] at hT ⊢ <;>
-      first | exact ⟨hs.retOk hT.1, hno'⟩ | exact ⟨hs.isIdle hT.1, hno'⟩
+      first | exact ⟨hs.retOk hT.1, hno'⟩ | exact ⟨hs.isIdle hT.1, hno', hT.2.2⟩
   | loadRead1 k => simp only [T] at hT ⊢; exact ⟨hs.pend hT.1, hno'⟩
   | loadLock k => simp only [T] at hT ⊢; exact ⟨hs.pend hT.1, hno'⟩
   | loadRead2 k => simp only [T] at hT; exact absurd hT.2 hno
@@ -300,8 +300,10 @@ theorem T_bystander {sh sh' : Shared K V} {u : Tid} {pc : Pc K V} {a a' : APc K 
   | rangeLock => simp only [T] at hT ⊢; exact ⟨hs.isIdle hT.1, hno'⟩
   | rangeRead2 => simp only [T] at hT; exact absurd hT.2 hno
   | rangeStore dm => simp only [T] at hT; exact absurd hT.2.1.own hno
-  | rangePick todo acc => simp only [T] at hT ⊢; exact ⟨hs.isIdle hT.1, hno'⟩
-  | rangeLoad todo acc k' e' => simp only [T] at hT ⊢; exact ⟨hs.isIdle hT.1, hno'⟩
+  | rangePick todo acc =>
+    simp only [T] at hT ⊢; exact ⟨hs.isIdle hT.1, hno', hT.2.2.1, fun p hp => hHR _ _ (hT.2.2.2 p hp)⟩
+  | rangeLoad todo acc k' e' =>
+    simp only [T] at hT ⊢; exact ⟨hs.isIdle hT.1, hno', hT.2.2.1, fun p hp => hHR _ _ (hT.2.2.2 p hp)⟩
 
 
 /-! ### changes that keep `read.m` -/
